@@ -41,7 +41,24 @@ SYN = [
     ([(1, "C", 0), (2, "N", 0), (3, "O", -1), (4, "C", 0)], [(1, 2, 1), (2, 3, 1), (2, 4, 1)]),
     ([(1, "C", 0), (2, "C", 0), (3, "C", 0), (4, "C", 0)], [(1, 2, 1), (2, 3, 1), (3, 4, 1), (4, 1, 1)]),
     ([(1, "O", 0), (2, "C", 1), (3, "O", -1)], [(1, 2, 2), (2, 3, 1)]),
+    # topologies that separate real isomorphism from cheap invariants (all carbon unless noted)
+    # 4/5: bridged bicyclics with three bridges of different lengths (cycle bases depend on traversal order)
+    ([(i, "C", 0) for i in range(1, 6)] + [(6, "N", 1)], [(1, 3, 1), (3, 2, 1), (1, 4, 2), (4, 2, 1), (1, 5, 1), (5, 6, 1), (6, 2, 1)]),
+    ([(i, "C", 0) for i in range(1, 9)], [(1, 3, 1), (3, 2, 1), (1, 4, 1), (4, 5, 1), (5, 2, 1), (1, 6, 1), (6, 7, 1), (7, 8, 1), (8, 2, 1)]),
+    # 6/7: hexagon vs two triangles (same size, same degree sequence)
+    ([(i, "C", 0) for i in range(1, 7)], [(1, 2, 1), (2, 3, 1), (3, 4, 1), (4, 5, 1), (5, 6, 1), (6, 1, 1)]),
+    ([(i, "C", 0) for i in range(1, 7)], [(1, 2, 1), (2, 3, 1), (3, 1, 1), (4, 5, 1), (5, 6, 1), (6, 4, 1)]),
+    # 8/9: prism vs K3,3 (both cubic on six nodes)
+    ([(i, "C", 0) for i in range(1, 7)], [(1, 2, 1), (2, 3, 1), (3, 1, 1), (4, 5, 1), (5, 6, 1), (6, 4, 1), (1, 4, 1), (2, 5, 1), (3, 6, 1)]),
+    ([(i, "C", 0) for i in range(1, 7)], [(1, 4, 1), (1, 5, 1), (1, 6, 1), (2, 4, 1), (2, 5, 1), (2, 6, 1), (3, 4, 1), (3, 5, 1), (3, 6, 1)]),
+    # 10/11: spiro (two triangles sharing an atom) vs fused squares minus nothing (bow-tie vs house-like), same size
+    ([(i, "C", 0) for i in range(1, 6)], [(1, 2, 1), (2, 3, 1), (3, 1, 1), (3, 4, 1), (4, 5, 1), (5, 3, 1)]),
+    ([(i, "C", 0) for i in range(1, 6)], [(1, 2, 1), (2, 3, 1), (3, 4, 1), (4, 1, 1), (1, 3, 1), (4, 5, 1)]),
+    # 12/13: same ring, the double bond / the charge at another position relative to the hetero atom
+    ([(1, "O", 0)] + [(i, "C", 0) for i in range(2, 7)], [(1, 2, 1), (2, 3, 2), (3, 4, 1), (4, 5, 1), (5, 6, 1), (6, 1, 1)]),
+    ([(1, "O", 0)] + [(i, "C", 0) for i in range(2, 7)], [(1, 2, 1), (2, 3, 1), (3, 4, 2), (4, 5, 1), (5, 6, 1), (6, 1, 1)]),
 ]
+SYN_FAMILIES = [[0], [1], [2], [3], [4], [5], [4, 5], [6, 7], [8, 9], [10, 11], [12, 13]]
 
 
 def _base_graph(b: Any) -> nx.Graph:
